@@ -514,7 +514,7 @@ func (g *TxGen) Gen(t *rapid.T) *TxDesc {
 				}
 				method, body, note, scripted = staking.MethodAddEscrow, &staking.Escrow{Account: to, Amount: *amt}, "delegator script: delegate", true
 			case !voted:
-				method, body, note, scripted = governance.MethodCastVote, &governance.ProposalVote{ID: p.ID, Vote: governance.Vote(rapid.IntRange(1, 3).Draw(t, "dvote"))}, "by a delegator", true
+				method, body, note, scripted = governance.MethodCastVote, &governance.ProposalVote{ID: p.ID, Vote: governance.Vote(rapid.SampledFrom([]int{1, 2, 3, 1, 2, 3, 1, 0, 4, 255}).Draw(t, "dvote"))}, "by a delegator", true
 			default:
 				method, body, note, scripted = staking.MethodReclaimEscrow, &staking.ReclaimEscrow{Account: to, Shares: *dels[to].Shares.Clone()}, "whole delegation", true
 			}
@@ -597,7 +597,8 @@ func (g *TxGen) Gen(t *rapid.T) *TxDesc {
 		if len(props) > 0 && rapid.IntRange(0, 9).Draw(t, "voteReal") > 0 {
 			id = props[rapid.IntRange(0, len(props)-1).Draw(t, "voteProp")].ID
 		}
-		vote := governance.Vote(rapid.IntRange(0, 4).Draw(t, "vote"))
+		// (vote kinds outside yes/no/abstain are accepted and stored by the application: they must not matter when the proposal closes)
+		vote := governance.Vote(rapid.SampledFrom([]int{0, 1, 2, 3, 4, 1, 2, 3, 255}).Draw(t, "vote"))
 		if strings.Contains(g.Profile, "gov") && rapid.IntRange(0, 3).Draw(t, "voteYes") > 0 {
 			vote = governance.VoteYes
 			// (votes count for validator entities: let an entity sign)
